@@ -39,7 +39,7 @@ Proof.
     + apply N.ltb_lt in E. unfold dval. cbn [fold_left]. f_equal. lia.
     + apply N.ltb_ge in E. rewrite IH by (apply div10_lt_pow; assumption).
       unfold dval. cbn [fold_left]. f_equal.
-      pose proof (N.div_mod n 10). lia.
+      rewrite (N.add_comm 48), N.add_sub, N.mul_comm. symmetry. apply N.div_mod. discriminate.
 Qed.
 
 Lemma dec_aux_digits : forall f n acc, Forall is_digit acc -> Forall is_digit (dec_aux f n acc).
@@ -47,7 +47,9 @@ Proof.
   induction f as [|f IH]; intros n acc H; [exact H|].
   rewrite dec_aux_S. destruct (n <? 10) eqn:E.
   - apply N.ltb_lt in E. constructor; [unfold is_digit; lia|exact H].
-  - apply IH. constructor; [|exact H]. unfold is_digit. pose proof (N.mod_upper_bound n 10). lia.
+  - apply IH. constructor; [|exact H]. unfold is_digit.
+    assert (B : n mod 10 < 10) by (apply N.mod_upper_bound; discriminate).
+    generalize dependent (n mod 10). intros m B. lia.
 Qed.
 
 Lemma dec_aux_head : forall f n acc, n < 2 ^ N.of_nat f -> 0 < n ->
@@ -177,7 +179,7 @@ Section TextProofs.
          change (has _ TI_BOOL) with false; change (has _ TI_UINT) with false; change (has _ TI_SINT) with true; cbn iota;
          rewrite plen_word_bytes; rewrite (word_val_value be k) by apply twos_bound;
          change (is_width (N.of_nat k)) with true; cbn iota;
-         rewrite sdec_twos; [reflexivity|vm_compute; reflexivity|exact Hz]).
+         rewrite sdec_twos; [reflexivity|unfold k; cbv; lia|exact Hz]).
     - intros [Ht Hn]. destruct (int_tyle_cases t Ht) as [E|[E|[E|[E|E]]]]; subst t;
         (match goal with |- context [width_bytes ?t] => set (k := width_bytes t) in * end;
          change (has _ TI_BOOL) with false; change (has _ TI_UINT) with true; cbn iota;
@@ -197,7 +199,7 @@ Section TextProofs.
   Lemma join_sp_cons t r : join_sp (t :: r) = t ++ join_rest r.
   Proof.
     revert t. induction r as [|t' r IH]; intros t; [cbn; now rewrite app_nil_r|].
-    cbn [join_sp join_rest]. rewrite IH. reflexivity.
+    change (join_sp (t :: t' :: r)) with (t ++ 32 :: join_sp (t' :: r)). rewrite IH. reflexivity.
   Qed.
 
   Lemma process_values_rest be vals : Forall wf_value vals ->
